@@ -948,6 +948,9 @@ func (s *Store) monitorLeaseAsPrimary(ctx context.Context, lease Lease) error {
 		}
 
 		log.Printf("set cluster id on %q lease %q", s.Leaser.Type(), clusterID)
+	} else if v != s.ClusterID() {
+		// The ID may have been set by another cluster since it was last compared.
+		return fmt.Errorf("cannot become primary, local cluster id %q does not match %q lease cluster id %q", s.ClusterID(), s.Leaser.Type(), v)
 	}
 
 	// Mark as the primary node while we're in this function.
